@@ -90,6 +90,29 @@ let () =
        | VInt n -> print_endline (id ^ " Q:" ^ hex_of_zl (quote_int n) ^ " L:K V:" ^
                                   (match lit_int (quote_int n) with Some m -> "i" ^ dec_of_z m | None -> "n"))
        | _ -> print_endline (id ^ " unmodelled"))
+    | id :: "F" :: f :: vs :: _ ->
+      (* one integer directive %[flags][width][.prec]conv with one integer argument; anything else: unmodelled *)
+      let fs = List.map int_of_z (zl_of_hex f) in
+      let str = String.init (List.length fs) (fun i -> Char.chr (List.nth fs i)) in
+      let n = String.length str in
+      (match parse_values vs with
+       | [VInt v] when n >= 2 && str.[0] = '%' && String.contains "diuxXo" str.[n-1] ->
+         let i = ref 1 in
+         let mi = ref false and pl = ref false and sp = ref false and sh = ref false and ze = ref false in
+         while !i < n - 1 && String.contains "-+ #0" str.[!i] do
+           (match str.[!i] with '-' -> mi := true | '+' -> pl := true | ' ' -> sp := true | '#' -> sh := true | _ -> ze := true);
+           incr i done;
+         let num () = let j = !i in while !i < n - 1 && str.[!i] >= '0' && str.[!i] <= '9' do incr i done;
+                      if !i > j then Some (z_of_int (int_of_string (String.sub str j (!i - j)))) else None in
+         let w = num () in
+         let p = if !i < n - 1 && str.[!i] = '.' then (incr i; (match num () with Some x -> Some x | None -> Some Z0)) else None in
+         if !i <> n - 1 then print_endline (id ^ " unmodelled") else begin
+           let c = (match str.[n-1] with 'd' -> CD | 'i' -> CI | 'u' -> CU | 'x' -> Cx | 'X' -> CX | _ -> Co) in
+           let spc = { minus = !mi; plus = !pl; space = !sp; sharp = !sh; zero = !ze; wid = w; prec = p } in
+           print_endline (id ^ " F:ok:" ^ show_value (VStr (go_fmt c spc v)) ^ " C:" ^ show_value (VStr (c_fmt c spc v))
+                          ^ " D:" ^ (if c_defined c spc then "1" else "0") ^ " X:" ^ (if defect_class_src c spc v then "1" else "0"))
+         end
+       | _ -> print_endline (id ^ " unmodelled"))
     | id :: "T" :: v :: _ ->
       (match parse_value v with
        | VInt n ->
